@@ -83,7 +83,8 @@ TopoDocs == {[BaseTopo EXCEPT !.roadm = r] : r \in RoadmCfgs} \cup {[BaseTopo EX
 
 -----------------------------------------------------------------------------
 \* ---- equipment
-RangeChoices == {<<N0, N0, Num(5, 1)>>, <<Num(-6, 0), Num(3, 0), Num(25, 2)>>}
+\* the third range sweeps downwards: the first bound is the START of the sweep, not the smaller value
+RangeChoices == {<<N0, N0, Num(5, 1)>>, <<Num(-6, 0), Num(3, 0), Num(25, 2)>>, <<Num(1, 0), Num(-1, 0), Num(1, 0)>>}
 BaseSpan == [range |-> <<N0, N0, Num(5, 1)>>, max_loss |-> Num(28, 0)]
 SpanCfgs == {[range |-> r, max_loss |-> m] : r \in RangeChoices, m \in {Num(28, 0), Num(2875, 2), Absent}}
 Si(n, r, p) == [name |-> n, range |-> r, tx_power_dbm |-> p]
